@@ -110,5 +110,8 @@ extern "C" void harness_ref_param()  /* vf: bounds=11_parameter_types_x_11_argum
     // the const wrapper on the parameter does not change which argument types are equivalent (for lvalue arguments of non-arithmetic types;
     // arithmetic types convert by value, which the property does not constrain)
     if (REFS[p].g && REFS[p].cls >= 5 && REFS[a].cls >= 5) vf_assert(call(REFS[p].g, REFS[a].var) == pa, "const-ref-same-equivalence");
+    // for a modifiable l-value argument the const wrapper changes nothing either, whatever the type - except that `const int` carries no range
+    // (so `const int&` is equivalent to every integer type, while `int&` has the default range)
+    if (REFS[p].g && REFS[p].cls != 0) { bool ga = call(REFS[p].g, REFS[a].var); vf_notei("ga", ga); vf_assert(ga == pa, "const-ref-lvalue-argument-follows-equivalence"); }
     vf_reach("end");
 }
